@@ -15,7 +15,7 @@ RULE = ("grammars as in C08 plus empty-language grammars, A->A and unit cycles, 
 ASSUMPTIONS = ["language equality is checked for words of length <= %d only (CFG equivalence is undecidable)" % N]
 TIERS = {
     "quick": {"workers": 4, "random": 4000},
-    "thorough": {"workers": 16, "random": 12000, "pytest": True, "exhaustive": True, "hard_timeout": 3000},
+    "thorough": {"workers": 16, "random": 40000, "pytest": True, "exhaustive": True, "hard_timeout": 3000},
 }
 MIN = {"quick": {"C09.CFG.remove_useless_symbols": 3000, "C09.CFG.remove_epsilon": 3000,
                  "C09.CFG.eliminate_unit_productions": 3000, "C09.CFG.to_normal_form": 3000,
